@@ -155,7 +155,11 @@ impl Identifier {
     # units see these accessors as opaque functions of the node; the files are pinned as a whole
     g.guard_file('generated typed-AST accessors (support::child / children / token one-liners; casts by kind): opaque to the units, pinned as a whole')
     U.file('crates/oq3_syntax/src/ast/generated/tokens.rs').guard_file('generated token types (casts by kind): opaque to the units, pinned as a whole')
-    U.n_pinned += 2
+    # ast.rs (support::child / children / token, AstChildren, the AstNode trait: what the prelude's stubs stand for), traits.rs
+    # (HasName / HasArgList / HasLoopBody one-liners), token_text.rs (TokenText derefs to the token's text): pinned as whole files
+    for _rel in ('crates/oq3_syntax/src/ast.rs', 'crates/oq3_syntax/src/ast/traits.rs', 'crates/oq3_syntax/src/token_text.rs'):
+        U.file(_rel).guard_file('rowan-level plumbing of the typed AST (support::child / children / token, AstChildren, trait one-liners, TokenText): the stubs of contracts/astx.prelude.rs stand for it; pinned as a whole')
+    U.n_pinned += 5
     U.assumed_parser = ['IF_STMT children: condition expression (not a block), then-body, optional else-body (if_shape)',
                         'WHILE_STMT children: condition expression (not a block), body (while_shape)',
                         'FOR_STMT children: type, loop variable, iterable, body (for_shape)',
